@@ -325,12 +325,16 @@ func (c *FnCtx) binop(x *ssa.BinOp) string {
 		case token.NEQ:
 			return not(eq(a, b))
 		case token.LSS:
+			c.usesStrLt = true
 			return app("str_lt", a, b)
 		case token.GTR:
+			c.usesStrLt = true
 			return app("str_lt", b, a)
 		case token.LEQ:
+			c.usesStrLt = true
 			return not(app("str_lt", b, a))
 		case token.GEQ:
+			c.usesStrLt = true
 			return not(app("str_lt", a, b))
 		}
 	case info&types.IsBoolean != 0:
